@@ -13,6 +13,7 @@ is registered at that step.  A JSON change that deserializes to the same typed
 value is not a deviation.
 -/
 import VarlinkVerif.Lemmas.Cert
+import VarlinkVerif.Model.CertTime
 import VarlinkVerif.Props.C01
 import VarlinkVerif.Props.C04
 
@@ -364,5 +365,48 @@ theorem C19_identical_requests_race (cvt : Int → Nat) (k : Step) (hk : k ≠ .
       simp only [List.replicate_succ, statesBefore, List.map_cons, hh]
       rw [ih s hs]
   exact hrej n _ (get_set_same _ _ _)
+
+/-! ### the lifetime of a client id (comparison and constant extracted from main.rs) -/
+
+/-- **an id younger than 12 hours is alive**: the expiry test of
+    `check_lifetime_timeout` — extracted from the Rust source on every run, elapsed
+    time in milliseconds — is false for every age below 12 h.  (A unit mix-up in
+    that comparison, e.g. milliseconds against the seconds constant, breaks this
+    obligation.) -/
+theorem C19_id_alive_for_12h (elapsedMs : Nat) (h : elapsedMs < twelveHoursMs) :
+    ExtractedCert.expired elapsedMs ExtractedCert.maxLifetime = false := by
+  unfold ExtractedCert.expired ExtractedCert.maxLifetime
+  unfold twelveHoursMs at h
+  simp only [decide_eq_false_iff_not]
+  omega
+
+/-- … and it does expire: one second past 12 hours the test is true -/
+theorem C19_id_expires (elapsedMs : Nat) (h : elapsedMs ≥ twelveHoursMs + 1000) :
+    ExtractedCert.expired elapsedMs ExtractedCert.maxLifetime = true := by
+  unfold ExtractedCert.expired ExtractedCert.maxLifetime
+  unfold twelveHoursMs at h
+  simp only [decide_eq_true_eq]
+  omega
+
+/-- the sweep removes nothing while every registered id is younger than 12 h -/
+theorem sweep_noop (now : Nat) : ∀ (born : List (Nat × String)) (st : CertState),
+    (∀ e ∈ born, now - e.1 < twelveHoursMs) → sweep now born st = (born, st)
+  | [], _, _ => rfl
+  | (b, id) :: rest, st, h => by
+    have := C19_id_alive_for_12h (now - b) (h (b, id) List.mem_cons_self)
+    simp [sweep, this]
+
+/-- **the untimed model is exact within the lifetime**: at any time at which every
+    registered id is younger than 12 h, a call does to the table and answers exactly
+    what `certHandle` says -/
+theorem C19_lifetime_sweep_is_noop_within_12h (cvt : Int → Nat) (now : Nat) (ts : TimedState)
+    (fresh : String) (req : Request) (h : ∀ e ∈ ts.born, now - e.1 < twelveHoursMs) :
+    ((certHandleTimed cvt now ts fresh req).1.st, (certHandleTimed cvt now ts fresh req).2) =
+      certHandle cvt ts.st fresh req := by
+  unfold certHandleTimed
+  by_cases hc : (reachesCheck cvt req && req.method != startMethod) = true
+  · simp only [hc, if_true, sweep_noop now ts.born ts.st h]
+  · simp only [hc]
+    rfl
 
 end VV
